@@ -367,7 +367,10 @@ fn check_commutation(c: &ChainCase, fails: &mut Fails) -> Option<u64> {
             let (x, y) = (a_chain[i][j], b_s[i][j]);
             let exact = pm::ref_score(rf[i][j], b[j] as f64, 2.0);
             if exact.is_finite() {
-                pm::note_slack(((x as f64) - (y as f64)).abs(), 2.0 * pm::tol_score(exact, pm::tol_weight_rel(5), 2.0));
+                pm::note_slack(
+                    ((x as f64) - (y as f64)).abs(),
+                    2.0 * pm::tol_score(exact, pm::tol_weight_rel(5), 2.0),
+                );
             }
             let ok = if exact == f64::NEG_INFINITY {
                 x == f32::NEG_INFINITY && y == f32::NEG_INFINITY
